@@ -53,13 +53,13 @@ def stream_extra(prop):
 
 
 RAND_PROPS = {"frame-differs": {"C01", "C05"}, "not-at-boundary": {"C03", "C05"}, "bytes-left-over": {"C03", "C05"},
-              "frames-missing": {"C01", "C03", "C05"}, "read-beyond-written": {"C03"}}
+              "frames-missing": {"C01", "C03", "C05"}, "read-beyond-written": {"C03"}, "encoder-refused": {"C01"}}
 
 
 def random_streams(s, h, v, prop, tier):
     """Binding T: streams of frames with random contents through random codec paths, judged by TLC (FrameStreamTrace.tla)."""
     trace = s.file("framerand.ndjson")
-    n = 500 if tier == "quick" else 6000
+    n = 2500 if tier == "quick" else 20000
     rep = harness_json(h, ["framerand", "-vec", s.file("wire.ndjson"), "-out", trace, "-n", str(n), "-seed", str(seed())], timeout=3600)
     lines = [json.loads(l) for l in open(trace)]
     # control: a stream whose frame comes back different must be rejected
